@@ -209,7 +209,85 @@ func genSmtFacts() (string, error) {
 		return "", fmt.Errorf("VerifyProof: neither the reconstruct-and-traverse algorithm nor the key-validating one (validNodeKey=%v, rebuild=%v)", validates, rebuilds)
 	}
 	fmt.Fprintf(&b, "/-- `VerifyProof` calls `validNodeKey` on every proof node and no longer rebuilds a throw-away tree -/\ndef verifyProofValidatesKeys : Bool := %v\n", validates)
+	// validNodeKey: the bound on untrusted proof-node keys, statement by statement
+	boundOK, valueLen := false, false
+	if vk := smtFindFunc(smt, "", "validNodeKey"); vk != nil {
+		nrm := func(n ast.Node) string {
+			switch x := n.(type) {
+			case ast.Expr:
+				return strings.ReplaceAll(g.ExprText(x), " ", "")
+			}
+			return ""
+		}
+		sizeGuard, lastBitsDef, ret := false, false, false
+		for _, stt := range vk.Body.List {
+			switch x := stt.(type) {
+			case *ast.IfStmt:
+				if nrm(x.Cond) == "size<2" && len(x.Body.List) == 1 {
+					if r, ok := x.Body.List[0].(*ast.ReturnStmt); ok && len(r.Results) == 1 && nrm(r.Results[0]) == "false" {
+						sizeGuard = true
+					}
+				}
+			case *ast.AssignStmt:
+				if len(x.Lhs) == 1 && len(x.Rhs) == 1 && nrm(x.Lhs[0]) == "lastBits" && nrm(x.Rhs[0]) == "leftPadding+max(bits.Len8(last),1)" {
+					lastBitsDef = true
+				}
+			case *ast.ReturnStmt:
+				if len(x.Results) == 1 && nrm(x.Results[0]) == "lastBits<=8&&(size-2)*8+lastBits<=maxBits" {
+					ret = true
+				}
+			}
+		}
+		boundOK = sizeGuard && lastBitsDef && ret
+	}
+	ast.Inspect(vp.Body, func(n ast.Node) bool {
+		if call, ok := n.(*ast.CallExpr); ok && strings.HasSuffix(g.ExprText(call.Fun), "validNodeValue") {
+			valueLen = true
+		}
+		return true
+	})
+	fmt.Fprintf(&b, "/-- `validNodeKey`: `if size < 2 { return false }`, `lastBits := leftPadding + max(bits.Len8(last), 1)`,\n`return lastBits <= 8 && (size-2)*8+lastBits <= maxBits` — the TOTAL number of key bits is bounded by the tree's key length -/\ndef validNodeKeyBoundsTotalBits : Bool := %v\n", boundOK)
+	fmt.Fprintf(&b, "/-- `VerifyProof` also checks the length of every proof node's value (`validNodeValue`) -/\ndef verifyProofChecksValueLength : Bool := %v\n", valueLen)
 	fmt.Fprintf(&b, "def rootWritesPrefix : Bytes := %s\ndef readOnlyReadsPrefix : Bytes := %s\n", g.BytesLit(prefixes[w]), g.BytesLit(prefixes[r]))
+	// Store.Copy(): which fields of the clone are taken over from the source store as they are (shared objects)?
+	cpFd := smtFindFunc(st, "Store", "Copy")
+	if cpFd == nil {
+		return "", fmt.Errorf("store/store.go: (*Store).Copy not found")
+	}
+	var shared, fresh []string
+	foundLit := false
+	ast.Inspect(cpFd.Body, func(n ast.Node) bool {
+		cl, ok := n.(*ast.CompositeLit)
+		if !ok || g.ExprText(cl.Type) != "Store" {
+			return true
+		}
+		foundLit = true
+		for _, e := range cl.Elts {
+			kv, ok := e.(*ast.KeyValueExpr)
+			if !ok {
+				continue
+			}
+			name := g.ExprText(kv.Key)
+			if strings.ReplaceAll(g.ExprText(kv.Value), " ", "") == "s."+name {
+				shared = append(shared, name)
+			} else {
+				fresh = append(fresh, name)
+			}
+		}
+		return false
+	})
+	if !foundLit {
+		return "", fmt.Errorf("(*Store).Copy: composite literal &Store{…} not found")
+	}
+	sort.Strings(shared)
+	sort.Strings(fresh)
+	carries := false
+	for _, f := range append(append([]string{}, shared...), fresh...) {
+		carries = carries || f == "sc"
+	}
+	fmt.Fprintf(&b, "/-- `Store.Copy()`: fields the clone shares with the source (`f: s.f`): %s; fields built anew: %s -/\ndef copySharedFieldCount : Nat := %d\n",
+		strings.Join(shared, ", "), strings.Join(fresh, ", "), len(shared))
+	fmt.Fprintf(&b, "/-- `Store.Copy()` sets the clone's cached state-commitment object `sc` (in any way) -/\ndef copyCarriesCommitment : Bool := %v\n", carries)
 	// node cache discipline of setNode / getNode / delNode (C08: cache coherence)
 	maxCache, ok := ints["MaxCacheSize"]
 	if !ok {
